@@ -30,6 +30,12 @@ Templates == {
   T("pub-empty", P(48, << >>), "bad"), T("pub-1", P(48, <<0>>), "bad"), T("pub-topic-overrun", P(48, <<0, 5, 97, 98>>), "bad"),
   T("pub1-noid", P(50, <<0, 1, 97>>), "bad"), T("pub2-halfid", P(52, <<0, 1, 97, 0>>), "bad"),
   T("pub-nul-topic", P(48, <<0, 2, 97, 0, 66>>), "bad"), T("pub-nul-only", P(48, <<0, 1, 0>>), "bad"),
+  \* string length fields at the edges of 16-bit arithmetic (a declared length that overruns the body by far)
+  T("pub-topiclen-ffff", P(48, <<255, 255, 97>>), "bad"), T("pub-topiclen-fffe", P(48, <<255, 254, 97, 98, 99>>), "bad"),
+  T("pub-topiclen-fffd", P(48, <<255, 253, 97>>), "bad"), T("pub-topiclen-ffff-only", P(48, <<255, 255>>), "bad"),
+  T("pub-topiclen-8000", P(48, <<128, 0, 97, 98>>), "bad"), T("pub-topiclen-7fff", P(48, <<127, 255, 97>>), "bad"),
+  T("pub1-topiclen-ffff", P(50, <<255, 255, 0, 1>>), "bad"), T("pub2-topiclen-fffe", P(52, <<255, 254, 0, 1, 66, 67>>), "bad"),
+  T("pub-topiclen-0100", P(48, <<1, 0, 97, 98, 99>>), "bad"),
   \* where the statement is silent
   T("puback-long", P(64, <<0, 7, 0>>), "either"), T("pingresp-body", P(208, <<1>>), "either"), T("connack-again", P(32, <<0, 0>>), "either"),
   T("connack-long", P(32, <<0, 0, 0>>), "either"), T("pub-emptytopic", P(48, <<0, 0, 66>>), "either"),
